@@ -69,7 +69,20 @@ def transfer_balance(ctx, grid_kind, body_kind, dim, n_elems, taper, grid_kw):
         forces0, torques0 = forces.copy(), torques.copy()
         grid.compute_lag_grid_position_field()
         grid.compute_lag_grid_velocity_field()
+        # frame condition: the transfer writes the two body arrays (and its own force scratch); the grid's kinematic
+        # state, the marker forces and the body state are inputs
+        scratch = {"lag_grid_torque_field", "element_forces_left_edge_nodes", "element_forces_right_edge_nodes"}
+        if grid_kind == "nodal":
+            scratch.add("moment_arm")  # the nodal grid computes its half-element arm inside the transfer (its own scratch)
+        snap = {n: getattr(grid, n).copy() for n in sorted(B.RESULT_ARRAYS - scratch) if isinstance(getattr(grid, n, None), np.ndarray)}
+        F0 = F.copy()
+        body0 = {k: v.copy() for k, v in st.items()}
         grid.transfer_forcing_from_grid_to_body(body_flow_forces=forces, body_flow_torques=torques, lag_grid_forcing_field=F)
+        for n, a0 in snap.items():
+            ctx.same_array(f"transfer_leaves_grid_state_untouched:{n}", getattr(grid, n), a0)
+        ctx.same_array("transfer_leaves_marker_forces_untouched", F, F0)
+        for k, v0 in body0.items():
+            ctx.same_array(f"transfer_leaves_body_state_untouched:{k}", st[k], v0)
     finally:
         B.proxy(False)
     X, Q = st["position_collection"], st["director_collection"]
